@@ -109,17 +109,17 @@ Proof.
   induction l as [|c r IH]; intros Hne Hdd Hfix; [contradiction|].
   destruct r as [|d r'].
   - (* single byte *)
-    cbn [strip_td] in Hfix. cbn [starts_dot split_dots]. destruct (c =? 46) eqn:Ec; [discriminate|].
+    cbn [strip_td] in Hfix. unfold starts_dot. cbn [starts_ch split_dots]. destruct (c =? 46) eqn:Ec; [discriminate|].
     split; intros H; [reflexivity| discriminate].
   - assert (Hr : d :: r' <> []) by discriminate.
     pose proof (strip_td_fix_tail c (d :: r') Hr Hfix) as Hfix'.
     cbn [has_dotdot] in Hdd. apply orb_false_iff in Hdd as [Hcd Hdd'].
     specialize (IH Hr Hdd' Hfix'). destruct IH as [IH1 IH2].
-    cbn [starts_dot]. change (split_dots (c :: d :: r')) with
+    change (starts_dot (c :: d :: r')) with (c =? 46). change (split_dots (c :: d :: r')) with
       (if c =? 46 then [] :: split_dots (d :: r')
        else match split_dots (d :: r') with x :: xs => (c :: x) :: xs | [] => [[c]] end).
     destruct (c =? 46) eqn:Ec.
-    + split; intros H; [discriminate|]. cbn [tl]. apply IH1. cbn [starts_dot].
+    + split; intros H; [discriminate|]. cbn [tl]. apply IH1. change (starts_dot (d :: r')) with (d =? 46).
       cbn [andb] in Hcd. exact Hcd.
     + split; intros H; [|discriminate].
       destruct (split_dots_cons (d :: r')) as [x [xs E]]. rewrite E. cbn [forallb nonempty].
@@ -257,8 +257,7 @@ Section WithOracle.
     exists h port, finish c ipq sch login h port urlpath = Some u.
   Proof.
     unfold after_login. destruct (split_host_port fh1) as [h ptxt].
-    destruct (match fh1 with 91 :: _ => match h with [] => true | _ => false end | [] => true | _ => false end);
-      [discriminate|].
+    destruct (if starts_ch 91 fh1 then is_nil h else is_nil fh1); [discriminate|].
     destruct (match ptxt with Some p => port_digits p 0 | None => _ end) as [port|]; [|discriminate].
     intros H. exists h, port. exact H.
   Qed.
@@ -398,3 +397,344 @@ Proof.
   exists no_ip, cfg_default, m_get, w_empty_host. eexists.
   split; [exact no_ip_contract|]. split; [vm_compute; reflexivity|]. vm_compute. reflexivity.
 Qed.
+
+(* ================================================================== *)
+(* RFC-shaped URIs: scheme "://" authority rest — what parse() computes *)
+
+Lemma span_takeN_app {A} (p : A -> bool) a c x n :
+  forallb p a = true -> p c = false -> lenN a <= n ->
+  fst (span p (takeN n (a ++ c :: x))) = a.
+Proof.
+  revert n. induction a as [|y a IH]; intros n Ha Hc Hn; cbn [app takeN].
+  - destruct (n =? 0); cbn [span fst]; [reflexivity| rewrite Hc; reflexivity].
+  - cbn [forallb] in Ha. apply andb_true_iff in Ha as [Hy Ha]. cbn [lenN] in Hn.
+    destruct (n =? 0) eqn:E; [lia|]. cbn [span]. rewrite Hy.
+    specialize (IH (N.pred n) Ha Hc ltac:(lia)).
+    destruct (span p (takeN (N.pred n) (a ++ c :: x))) as [s1 s2]. cbn [fst] in *. rewrite IH. reflexivity.
+Qed.
+
+Definition head_alpha (l : bytes) : bool := match l with c :: _ => cs_ALPHA c | [] => false end.
+
+(* a scheme name as uriParseScheme accepts it *)
+Definition scheme_text (s : bytes) : Prop :=
+  forallb schemeChars s = true /\ lenN s <= 16 /\ head_alpha s = true.
+
+Lemma parse_scheme_app s X : scheme_text s -> parse_scheme (s ++ colon :: X) = Some (scheme_of s, X).
+Proof.
+  intros [Hs [Hl Ha]]. unfold parse_scheme. rewrite tok_prefix_eq_spec. unfold prefix_spec.
+  rewrite (span_takeN_app schemeChars s colon X 16 Hs eq_refl Hl).
+  destruct s as [|c0 s']; [discriminate|].
+  rewrite dropN_app_exact. unfold tok_skipChar. change (colon =? colon) with true. cbv iota.
+  cbn [head_alpha] in Ha. rewrite Ha. reflexivity.
+Qed.
+
+Lemma tok_skip_slashes Y : tok_skip [slash; slash] (slash :: slash :: Y) = (true, Y).
+Proof. reflexivity. Qed.
+
+Definition nul_free_b (l : bytes) : bool := forallb (fun c => negb (c =? 0)) l.
+Lemma cstr_app_nul_free a b : nul_free_b a = true -> cstr (a ++ b) = a ++ cstr b.
+Proof.
+  induction a as [|x a IH]; cbn [app]; [reflexivity|]. unfold nul_free_b. cbn [forallb]. intros H.
+  apply andb_true_iff in H as [Hx Ha]. cbn [cstr]. apply negb_true_iff in Hx. rewrite Hx, (IH Ha). reflexivity.
+Qed.
+
+(* bytes that the authority loop copies into foundHost *)
+Definition auth_char (c : N) : bool := negb (host_delim c) && negb (c =? 0).
+(* the text after the authority: nothing, or it starts with a delimiter (or NUL) *)
+Definition rest_ok (rest : bytes) : Prop :=
+  match rest with [] => True | y :: _ => host_delim y = true \/ y = 0 end.
+
+Lemma cstr_rest_stop rest : rest_ok rest ->
+  match cstr rest with [] => True | y :: _ => negb (host_delim y) = false end.
+Proof.
+  destruct rest as [|y r]; cbn [cstr rest_ok]; [trivial|]. intros [H| ->].
+  - destruct (y =? 0); [exact I|]. rewrite H. reflexivity.
+  - exact I.
+Qed.
+
+Lemma list_eqb_long x y t (z : N) : list_eqb (x :: y :: t) [z] = false.
+Proof. cbn [list_eqb]. apply andb_false_r. Qed.
+
+Lemma split_last_none ch l : existsb (N.eqb ch) l = false -> split_last ch l = None.
+Proof.
+  induction l as [|x l IH]; cbn [existsb split_last]; [reflexivity|]. intros H.
+  apply orb_false_iff in H as [Hx Hl]. rewrite (IH Hl). rewrite N.eqb_sym, Hx. reflexivity.
+Qed.
+
+Lemma split_last_app ch a b : existsb (N.eqb ch) b = false -> split_last ch (a ++ ch :: b) = Some (a, b).
+Proof.
+  intros Hb. induction a as [|x a IH]; cbn [app split_last].
+  - rewrite (split_last_none ch b Hb), N.eqb_refl. reflexivity.
+  - rewrite IH. reflexivity.
+Qed.
+
+Lemma split_first_app ch a b : existsb (N.eqb ch) a = false -> split_first ch (a ++ ch :: b) = Some (a, b).
+Proof.
+  induction a as [|x a IH]; cbn [app existsb split_first]; intros H.
+  - rewrite N.eqb_refl. reflexivity.
+  - apply orb_false_iff in H as [Hx Ha]. rewrite N.eqb_sym, Hx, (IH Ha). reflexivity.
+Qed.
+
+(* the two RFC shapes of host[:port] *)
+Definition no_colon (l : bytes) : bool := negb (existsb (N.eqb colon) l).
+
+Lemma split_host_port_name_port h P :
+  starts_ch 91 h = false -> no_colon h = true -> no_colon P = true ->
+  split_host_port (h ++ colon :: P) = (h, Some P).
+Proof.
+  unfold no_colon. intros Hb Hh HP. apply negb_true_iff in Hh, HP. unfold split_host_port.
+  assert (E : starts_ch 91 (h ++ colon :: P) = false) by (destruct h; [reflexivity| exact Hb]).
+  rewrite E, (split_last_app colon h P HP), Hh. reflexivity.
+Qed.
+
+Lemma split_host_port_name h :
+  starts_ch 91 h = false -> no_colon h = true -> split_host_port h = (h, None).
+Proof.
+  unfold no_colon. intros Hb Hh. apply negb_true_iff in Hh. unfold split_host_port.
+  rewrite Hb, (split_last_none colon h Hh). reflexivity.
+Qed.
+
+Definition no_rbracket (l : bytes) : bool := forallb (fun c => negb (c =? 93)) l.
+
+Lemma split_host_port_literal_port inner P :
+  no_rbracket inner = true ->
+  split_host_port (91 :: inner ++ 93 :: colon :: P) = (inner, Some P).
+Proof.
+  intros Hi. unfold split_host_port. change (starts_ch 91 (91 :: inner ++ 93 :: colon :: P)) with true.
+  cbv iota. cbn [tl]. rewrite (span_app_stop _ inner (93 :: colon :: P) Hi eq_refl).
+  change (93 :: colon :: P) with ([93] ++ colon :: P). rewrite (split_first_app colon [93] P eq_refl). reflexivity.
+Qed.
+
+Lemma split_host_port_literal inner :
+  no_rbracket inner = true -> split_host_port (91 :: inner ++ [93]) = (inner, None).
+Proof.
+  intros Hi. unfold split_host_port. change (starts_ch 91 (91 :: inner ++ [93])) with true.
+  cbv iota. cbn [tl]. rewrite (span_app_stop _ inner [93] Hi eq_refl). reflexivity.
+Qed.
+
+(* the decimal reading of a digit string, the spec side of "the port written in the URI" *)
+Definition dec_digit (c : N) : bool := (48 <=? c) && (c <=? 57).
+Fixpoint dec_value (l : bytes) (acc : N) : N :=
+  match l with [] => acc | c :: r => dec_value r (acc * 10 + (c - 48)) end.
+
+Lemma xisdigit_is_dec_256 c : c < 256 -> Bool.eqb (xisdigit c) (dec_digit c) = true.
+Proof. apply (forallb_bytes (fun c => Bool.eqb (xisdigit c) (dec_digit c))). vm_compute. reflexivity. Qed.
+Lemma xisdigit_dec c : xisdigit c = true -> dec_digit c = true.
+Proof.
+  intros H. destruct (N.lt_ge_cases c 256) as [L|L].
+  - pose proof (xisdigit_is_dec_256 c L) as E. rewrite H in E. destruct (dec_digit c); [reflexivity| discriminate].
+  - unfold xisdigit, uri_xisdigit, mem_tbl in H. rewrite tbl_get_default in H; [discriminate|].
+    assert (Len : lenN uri_xisdigit_tbl = 256) by (vm_compute; reflexivity). lia.
+Qed.
+
+Lemma port_digits_sound P : forall acc p,
+  port_digits P acc = Some p -> forallb dec_digit P = true /\ p = dec_value P acc.
+Proof.
+  induction P as [|c r IH]; intros acc p; cbn [port_digits forallb dec_value].
+  - intros H. inversion H. split; reflexivity.
+  - destruct (negb (xisdigit c) || (65535 <? acc)) eqn:E; [discriminate|]. intros H.
+    apply orb_false_iff in E as [Ed _]. apply negb_false_iff in Ed.
+    destruct (IH _ _ H) as [Hr Hp]. rewrite (xisdigit_dec c Ed), Hr. split; [reflexivity| exact Hp].
+Qed.
+
+Section Shape.
+  Variable ipq : bytes -> ipres.
+
+  (* parse() on   scheme ":" "//" A rest   where A is what the authority loop copies *)
+  Theorem parse_shape c m s A rest :
+    is_connect m = false -> scheme_text s ->
+    s_id (scheme_of s) <> uri_PROTO_NONE -> s_id (scheme_of s) <> uri_PROTO_URN ->
+    forallb auth_char A = true -> rest_ok rest ->
+    lenN (s ++ colon :: slash :: slash :: A ++ rest) <= uri_MAX_URL - 1 ->
+    parse c ipq m (s ++ colon :: slash :: slash :: A ++ rest) =
+      match split_last 64 A with
+      | Some (a, b) => after_login c ipq (scheme_of s) (unesc_list a) b (urlpath_of (cstr rest))
+      | None => after_login c ipq (scheme_of s) [] A (urlpath_of (cstr rest))
+      end.
+  Proof.
+    intros Hm Hs Hnone Hurn HA Hrest Hlen. unfold parse.
+    assert (L : (uri_MAX_URL - 1 <? lenN (s ++ colon :: slash :: slash :: A ++ rest)) = false) by lia.
+    rewrite L, Hm.
+    assert (St : list_eqb (s ++ colon :: slash :: slash :: A ++ rest) uri_asterisk = false).
+    { destruct Hs as [_ [_ Ha]]. destruct s as [|c0 s']; [discriminate|].
+      change uri_asterisk with [42]. destruct s'; apply list_eqb_long. }
+    rewrite St, andb_false_r. rewrite (parse_scheme_app s _ Hs).
+    apply N.eqb_neq in Hnone, Hurn. rewrite Hnone, Hurn.
+    unfold parse_url. rewrite tok_skip_slashes.
+    assert (HAn : nul_free_b A = true).
+    { unfold nul_free_b. eapply forallb_impl; [|exact HA]. intros x Hx. unfold auth_char in Hx. lia. }
+    rewrite (cstr_app_nul_free A rest HAn).
+    assert (HAd : forallb (fun c0 => negb (host_delim c0)) A = true).
+    { eapply forallb_impl; [|exact HA]. intros x Hx. unfold auth_char in Hx. lia. }
+    rewrite (span_app_stop _ A (cstr rest) HAd (cstr_rest_stop rest Hrest)). reflexivity.
+  Qed.
+
+  (* after_login on  name ":" P  and on  name  *)
+  Lemma after_login_name_port c sch login h P urlpath :
+    starts_ch 91 h = false -> no_colon h = true -> no_colon P = true ->
+    after_login c ipq sch login (h ++ colon :: P) urlpath =
+      match port_digits P 0 with
+      | Some port => finish c ipq sch login h port urlpath
+      | None => None
+      end.
+  Proof.
+    intros Hb Hh HP. unfold after_login. rewrite (split_host_port_name_port h P Hb Hh HP).
+    assert (E : starts_ch 91 (h ++ colon :: P) = false) by (destruct h; [reflexivity| exact Hb]).
+    rewrite E. assert (N : is_nil (h ++ colon :: P) = false) by (destruct h; reflexivity).
+    rewrite N. reflexivity.
+  Qed.
+
+  Lemma after_login_name c sch login h urlpath :
+    starts_ch 91 h = false -> no_colon h = true -> h <> [] ->
+    after_login c ipq sch login h urlpath =
+      finish c ipq sch login h (match default_port sch with Some d => d | None => 0 end) urlpath.
+  Proof.
+    intros Hb Hh Hne. unfold after_login. rewrite (split_host_port_name h Hb Hh), Hb.
+    destruct h; [contradiction| reflexivity].
+  Qed.
+
+  Lemma after_login_literal_port c sch login inner P urlpath :
+    no_rbracket inner = true -> inner <> [] ->
+    after_login c ipq sch login (91 :: inner ++ 93 :: colon :: P) urlpath =
+      match port_digits P 0 with
+      | Some port => finish c ipq sch login inner port urlpath
+      | None => None
+      end.
+  Proof.
+    intros Hi Hne. unfold after_login. rewrite (split_host_port_literal_port inner P Hi).
+    change (starts_ch 91 (91 :: inner ++ 93 :: colon :: P)) with true. cbv iota.
+    destruct inner; [contradiction| reflexivity].
+  Qed.
+
+  Lemma after_login_literal c sch login inner urlpath :
+    no_rbracket inner = true -> inner <> [] ->
+    after_login c ipq sch login (91 :: inner ++ [93]) urlpath =
+      finish c ipq sch login inner (match default_port sch with Some d => d | None => 0 end) urlpath.
+  Proof.
+    intros Hi Hne. unfold after_login. rewrite (split_host_port_literal inner Hi).
+    change (starts_ch 91 (91 :: inner ++ [93])) with true. cbv iota.
+    destruct inner; [contradiction| reflexivity].
+  Qed.
+
+  (* ---------------------------------------------------------------- *)
+  (* (3) and the port half of (1), for RFC-shaped URIs
+         scheme "://" [userinfo "@"] reg-name ":" P rest
+     P is the text between the colon and the end of the authority.  If the URI is accepted then
+     P is a non-empty string of decimal digits, its value is in 1..65535 and it IS the port. *)
+  Definition userinfo_at (ui : bytes) : Prop :=            (* "" or userinfo "@" *)
+    ui = [] \/ exists a, ui = a ++ [64] /\ forallb auth_char a = true.
+  Definition no_at (l : bytes) : bool := negb (existsb (N.eqb 64) l).
+
+  Lemma userinfo_auth ui : userinfo_at ui -> forallb auth_char ui = true.
+  Proof.
+    intros [->|[a [-> Ha]]]; [reflexivity|]. rewrite forallb_app', Ha. reflexivity.
+  Qed.
+
+  Lemma split_login ui hp : userinfo_at ui -> no_at hp = true ->
+    match split_last 64 (ui ++ hp) with Some (_, b) => b = hp | None => ui = [] end.
+  Proof.
+    unfold no_at. intros Hui Hhp. apply negb_true_iff in Hhp. destruct Hui as [->|[a [-> Ha]]].
+    - cbn [app]. rewrite (split_last_none 64 hp Hhp). reflexivity.
+    - rewrite <- app_assoc. cbn [app]. rewrite (split_last_app 64 a hp Hhp). reflexivity.
+  Qed.
+
+  Theorem shaped_port_is_written c m s ui h P rest u :
+    is_connect m = false -> scheme_text s ->
+    s_id (scheme_of s) <> uri_PROTO_NONE -> s_id (scheme_of s) <> uri_PROTO_URN ->
+    userinfo_at ui ->
+    forallb auth_char h = true -> no_at h = true -> no_colon h = true -> starts_ch 91 h = false ->
+    forallb auth_char P = true -> no_at P = true -> no_colon P = true ->
+    rest_ok rest ->
+    parse c ipq m (s ++ colon :: slash :: slash :: (ui ++ h ++ colon :: P) ++ rest) = Some u ->
+    P <> [] /\ forallb dec_digit P = true /\ 1 <= dec_value P 0 <= 65535 /\ u_port u = Some (dec_value P 0).
+  Proof.
+    intros Hm Hs Hnone Hurn Hui Hh Hha Hhc Hhb HP HPa HPc Hrest H.
+    assert (Hlen : lenN (s ++ colon :: slash :: slash :: (ui ++ h ++ colon :: P) ++ rest) <= uri_MAX_URL - 1).
+    { unfold parse in H. destruct (uri_MAX_URL - 1 <? lenN _) eqn:E; [discriminate| lia]. }
+    assert (HA : forallb auth_char (ui ++ h ++ colon :: P) = true).
+    { rewrite !forallb_app'. cbn [forallb]. rewrite (userinfo_auth ui Hui), Hh, HP. reflexivity. }
+    rewrite (parse_shape c m s _ rest Hm Hs Hnone Hurn HA Hrest Hlen) in H.
+    assert (Hhp : no_at (h ++ colon :: P) = true).
+    { unfold no_at in *. rewrite existsb_app. cbn [existsb]. apply negb_true_iff in Hha, HPa.
+      rewrite Hha, HPa. reflexivity. }
+    pose proof (split_login ui (h ++ colon :: P) Hui Hhp) as Hsl.
+    assert (exists login, after_login c ipq (scheme_of s) login (h ++ colon :: P) (urlpath_of (cstr rest)) = Some u) as [login Hal].
+    { destruct (split_last 64 (ui ++ h ++ colon :: P)) as [[a b]|].
+      - subst b. eexists. exact H.
+      - subst ui. eexists. exact H. }
+    rewrite (after_login_name_port c _ login h P _ Hhb Hhc HPc) in Hal.
+    destruct (port_digits P 0) as [port|] eqn:Hpd; [|discriminate].
+    destruct (port_digits_sound P 0 port Hpd) as [Hd Hv]. apply finish_inv in Hal.
+    destruct Hal as [_ [_ [Hp [Hr _]]]]. subst port.
+    split; [|split; [exact Hd| split; [exact Hr| exact Hp]]].
+    intros ->. cbn [dec_value] in Hr. lia.
+  Qed.
+
+  (* the same after an IP literal: P may contain anything but '@' and delimiters *)
+  Theorem shaped_literal_port_is_written c m s ui inner P rest u :
+    is_connect m = false -> scheme_text s ->
+    s_id (scheme_of s) <> uri_PROTO_NONE -> s_id (scheme_of s) <> uri_PROTO_URN ->
+    userinfo_at ui ->
+    forallb auth_char inner = true -> no_at inner = true -> no_rbracket inner = true ->
+    forallb auth_char P = true -> no_at P = true ->
+    rest_ok rest ->
+    parse c ipq m (s ++ colon :: slash :: slash :: (ui ++ 91 :: inner ++ 93 :: colon :: P) ++ rest) = Some u ->
+    P <> [] /\ forallb dec_digit P = true /\ 1 <= dec_value P 0 <= 65535 /\ u_port u = Some (dec_value P 0).
+  Proof.
+    intros Hm Hs Hnone Hurn Hui Hi Hia Hib HP HPa Hrest H.
+    assert (Hlen : lenN (s ++ colon :: slash :: slash :: (ui ++ 91 :: inner ++ 93 :: colon :: P) ++ rest) <= uri_MAX_URL - 1).
+    { unfold parse in H. destruct (uri_MAX_URL - 1 <? lenN _) eqn:E; [discriminate| lia]. }
+    assert (HA : forallb auth_char (ui ++ 91 :: inner ++ 93 :: colon :: P) = true).
+    { rewrite forallb_app'. cbn [forallb]. rewrite forallb_app'. cbn [forallb].
+      rewrite (userinfo_auth ui Hui), Hi, HP. reflexivity. }
+    rewrite (parse_shape c m s _ rest Hm Hs Hnone Hurn HA Hrest Hlen) in H.
+    assert (Hhp : no_at (91 :: inner ++ 93 :: colon :: P) = true).
+    { unfold no_at in *. cbn [existsb]. rewrite existsb_app. cbn [existsb]. apply negb_true_iff in Hia, HPa.
+      rewrite Hia, HPa. reflexivity. }
+    pose proof (split_login ui _ Hui Hhp) as Hsl.
+    assert (exists login, after_login c ipq (scheme_of s) login (91 :: inner ++ 93 :: colon :: P) (urlpath_of (cstr rest)) = Some u) as [login Hal].
+    { destruct (split_last 64 (ui ++ 91 :: inner ++ 93 :: colon :: P)) as [[a b]|].
+      - subst b. eexists. exact H.
+      - subst ui. eexists. exact H. }
+    destruct inner as [|i0 inner'] eqn:Ei.
+    { (* "[]" : the host-must-be-present test rejects *)
+      unfold after_login in Hal. cbn in Hal. discriminate. }
+    rewrite <- Ei in *. assert (Hne : inner <> []) by (rewrite Ei; discriminate).
+    rewrite (after_login_literal_port c _ login inner P _ Hib Hne) in Hal.
+    destruct (port_digits P 0) as [port|] eqn:Hpd; [|discriminate].
+    destruct (port_digits_sound P 0 port Hpd) as [Hd Hv]. apply finish_inv in Hal.
+    destruct Hal as [_ [_ [Hp [Hr _]]]]. subst port.
+    split; [|split; [exact Hd| split; [exact Hr| exact Hp]]].
+    intros ->. cbn [dec_value] in Hr. lia.
+  Qed.
+
+  (* without a port: the scheme's default port *)
+  Theorem shaped_default_port c m s ui h rest u :
+    is_connect m = false -> scheme_text s ->
+    s_id (scheme_of s) <> uri_PROTO_NONE -> s_id (scheme_of s) <> uri_PROTO_URN ->
+    userinfo_at ui ->
+    forallb auth_char h = true -> no_at h = true -> no_colon h = true -> starts_ch 91 h = false ->
+    rest_ok rest ->
+    parse c ipq m (s ++ colon :: slash :: slash :: (ui ++ h) ++ rest) = Some u ->
+    h <> [] /\ u_port u = default_port (scheme_of s) /\ u_scheme u = scheme_of s.
+  Proof.
+    intros Hm Hs Hnone Hurn Hui Hh Hha Hhc Hhb Hrest H.
+    assert (Hlen : lenN (s ++ colon :: slash :: slash :: (ui ++ h) ++ rest) <= uri_MAX_URL - 1).
+    { unfold parse in H. destruct (uri_MAX_URL - 1 <? lenN _) eqn:E; [discriminate| lia]. }
+    assert (HA : forallb auth_char (ui ++ h) = true).
+    { rewrite forallb_app', (userinfo_auth ui Hui), Hh. reflexivity. }
+    rewrite (parse_shape c m s _ rest Hm Hs Hnone Hurn HA Hrest Hlen) in H.
+    pose proof (split_login ui h Hui Hha) as Hsl.
+    assert (exists login, after_login c ipq (scheme_of s) login h (urlpath_of (cstr rest)) = Some u) as [login Hal].
+    { destruct (split_last 64 (ui ++ h)) as [[a b]|].
+      - subst b. eexists. exact H.
+      - subst ui. eexists. exact H. }
+    destruct h as [|h0 h'] eqn:Eh.
+    { unfold after_login in Hal. cbn in Hal. discriminate. }
+    rewrite <- Eh in *. assert (Hne : h <> []) by (rewrite Eh; discriminate).
+    split; [exact Hne|].
+    rewrite (after_login_name c _ login h _ Hhb Hhc Hne) in Hal. apply finish_inv in Hal.
+    destruct Hal as [Hsch [_ [Hp [Hr _]]]]. split; [|exact Hsch]. rewrite Hp.
+    destruct (default_port (scheme_of s)) as [d|]; [reflexivity| lia].
+  Qed.
+End Shape.
